@@ -369,7 +369,7 @@ def run(R):
         extra_ok = config_stage(R) and extra_ok
         # nesting and domain guards reach the compiler intact: the guard an inner blueprint registers decides, in the
         # generated server, which Host reaches its routes (family gen_routes)
-        import domains_e2e
+        import checks.domains_e2e as domains_e2e
         extra_ok = domains_e2e.domain_stage(R, "C19") and extra_ok
     bad = attrs.srcshape(R)
     if bad:
